@@ -19,7 +19,7 @@
           set to the column type is lossy (see Model/Prune.v)
      E  : which leaf expressions pyarrow refuses on which row beyond the Python-incomparable ones
           (no kernel for the column type, e.g. int64 vs bool; lossy cast, e.g. 2^53+1 vs 0.5)
-     PA : which Python lists pa.array accepts as a value set
+     PA : which Python literals pyarrow accepts when the expression is built (pa.scalar, pa.array)
 
    Definitions only. *)
 From Coq Require Import String Ascii.
@@ -192,14 +192,14 @@ Fixpoint parse (f : pyfilter) : res (list pexpr) :=
   end.
 
 (* ------------------------------------------------------------------ to_pyarrow_compute_expression *)
-Definition condition (PA : list value -> bool) (p : pexpr) : res cexpr :=
+Definition condition (PA : parg -> bool) (p : pexpr) : res cexpr :=
   gen_condition PA (pop p) (pcol p) (pval p).
 
-Definition build (PA : list value -> bool) (es : list pexpr) : res (option cexpr) :=
+Definition build (PA : parg -> bool) (es : list pexpr) : res (option cexpr) :=
   bind (mapM (condition PA) es) (fun cs => Ok (gen_fold cs)).
 
 (* parse, then build: what every API does with the user's filter before touching data *)
-Definition prepare (PA : list value -> bool) (f : pyfilter) : res (list pexpr * option cexpr) :=
+Definition prepare (PA : parg -> bool) (f : pyfilter) : res (list pexpr * option cexpr) :=
   bind (parse f) (fun es => bind (build PA es) (fun ce => Ok (es, ce))).
 
 (* ------------------------------------------------------------------ well-shaped expressions *)
@@ -245,7 +245,7 @@ Definition chunk {A} (n : nat) (l : list A) : list (list A) := chunk_aux (length
 Section Pipelines.
   Variable X : value -> value -> bool.
   Variable E : cexpr -> row -> bool.
-  Variable PA : list value -> bool.
+  Variable PA : parg -> bool.
   Variable sch : list Z.                                       (* the columns of the table's parquet files *)
   Variable ids : list (Z * Z).                                 (* column -> field id *)
   Variable bounds : file -> list (Z * value) * list (Z * value).  (* decoded manifest bounds of a file *)
